@@ -550,10 +550,13 @@ async fn scn_exhaust(seed: u64, fill: usize, extra: usize, old: usize, young: us
     let mut r = Rng::new(seed);
     let env = Arc::new(Env::start(r.bool()).await?);
     let release_at = Arc::new(AtomicU64::new(env.now() + hold_ms * 1_000_000));
+    // half of the runs release the held answers in six waves 70 ms apart, in an order unrelated to
+    // the arrival order (the others: all at once, in arrival order)
+    let stagger = r.bool();
     {
         let ra = release_at.clone();
-        env.set_policy(Arc::new(move |_, _, now| {
-            let at = ra.load(Ordering::SeqCst);
+        env.set_policy(Arc::new(move |m, _, now| {
+            let at = ra.load(Ordering::SeqCst) + if stagger { ((m.wrapping_mul(2654435761) >> 7) % 6) * 70_000_000 } else { 0 };
             if at > now { vec![Action::Delay((at - now) / 1_000_000 + 1)] } else { vec![] }
         }));
     }
@@ -576,6 +579,15 @@ async fn scn_exhaust(seed: u64, fill: usize, extra: usize, old: usize, young: us
     let t = Instant::now();
     while env.received.load(Ordering::SeqCst) < fill && t.elapsed() < Duration::from_millis(hold_ms) {
         tokio::time::sleep(Duration::from_millis(5)).await;
+    }
+    if env.received.load(Ordering::SeqCst) < fill {
+        // the machine stalled: the held answers are about to be released before all requests are at the
+        // mock -- this attempt cannot show exhaustion; the caller retries with a longer hold
+        for h in handles.into_iter().flatten() {
+            h.abort();
+        }
+        env.cluster.shutdown();
+        return Err("window-missed".into());
     }
     if std::env::var("C02_E2E_DEBUG").is_ok() {
         eprintln!("fill {} received {} after {} ms", fill, env.received.load(Ordering::SeqCst), t.elapsed().as_millis());
@@ -1047,7 +1059,16 @@ pub fn run_case(case: &str) -> Option<String> {
     let res = match f.first().copied() {
         Some("P") => rt(0).block_on(scn_phased(num(1), num(2) as usize)),
         Some("R") => rt(num(3).max(1) as usize).block_on(scn_random(num(1), num(2) as usize)),
-        Some("X") => rt(2).block_on(scn_exhaust(num(1), num(2) as usize, num(3) as usize, num(4) as usize, num(5) as usize, num(6), num(7))),
+        Some("X") => {
+            let mut res = Err("not-run".to_string());
+            for attempt in 0..3u64 {
+                res = rt(2).block_on(scn_exhaust(num(1), num(2) as usize, num(3) as usize, num(4) as usize, num(5) as usize, num(6), num(7) << attempt));
+                if res.is_ok() {
+                    break;
+                }
+            }
+            res
+        }
         Some("G") => rt(2).block_on(scn_oversize(num(1), num(2).max(1) as usize, num(3))),
         Some("O") => {
             let chunk = usize::from_str_radix(f.get(1).copied().unwrap_or("1"), 16).unwrap_or(1);
